@@ -117,6 +117,65 @@ theorem header_set_get (h : Dic) (n v : Bytes) (hv : v ≠ []) :
   obtain ⟨h1, h2, _⟩ := header_lookup_case_insensitive (setHeader h n v) n
   exact ⟨h1.trans key, h2.trans key, key⟩
 
+/-- lowercase hexadecimal digits of a number (chunk-size lines) -/
+def lowerHex (n : Nat) : Bytes := (Nat.toDigits 16 n).map fun c => c.toNat.toUInt8
+
+/-! ## a well-formed request is handed over exactly as sent -/
+
+/-- a line `ℓ LF` (no LF inside, at most 16001 bytes) at the head of a healthy connection is returned as `ℓ`, and
+    exactly `ℓ LF` is consumed -/
+theorem readLine_faithful (s : Sock) (line rest : Bytes) (he : s.err = 0) (hc : s.closed = false)
+    (hi : s.inp = line ++ 10 :: rest) (h10 : ∀ c ∈ line, c ≠ 10) (hlen : line.length ≤ 16001) :
+    s.readLine = (line, { s with inp := rest }) := readLine_line s line rest he hc hi h10 hlen
+
+/-- `method SP target SP protocol` (method and target without space/NUL) splits into exactly these three;
+    the protocol is anything up to the end of the line, trimmed -/
+theorem requestline_faithful (m t p : Bytes) (hm : ∀ c ∈ m, c ≠ 32 ∧ c ≠ 0) (ht : ∀ c ∈ t, c ≠ 32 ∧ c ≠ 0) :
+    parseRequestLine (m ++ 32 :: (t ++ 32 :: p)) = .ok (some ⟨m, t, trimmed p⟩) :=
+  parseRequestLine_faithful m t p hm ht
+
+/-- a block of well-formed header lines `name: value CRLF … CRLF` is consumed exactly and stored field by field under
+    the canonical names (`hdrDic`); the bytes after the empty line stay unread -/
+theorem headers_faithful (hs : List (Bytes × Bytes)) (rest : Bytes) (hok : HeadersOk hs) :
+    readHeaders { inp := hdrBlock hs ++ 13 :: 10 :: rest } = .ok ({ inp := rest }, hdrDic hs) := by
+  unfold readHeaders
+  exact iterate_headers hs rest hok _ _ [] [] [] rfl rfl rfl
+    (by have := hdrBlock_length hs; simp only [List.length_append, List.length_cons]; omega)
+
+/-- `Content-Length: n` with the `n` bytes pending: the body is exactly those `n` bytes (any `n`, through the
+    16000-byte blocks), and a pipelined next request stays unread.  (False before fix b6e8f47.) -/
+theorem body_content_length_exact (s : Sock) (h : Dic) (body rest : Bytes) (he : s.err = 0) (hc : s.closed = false)
+    (hi : s.inp = body ++ rest) (hpos : 0 < body.length) (hcl : hasHeader h sContentLength = true)
+    (hval : myatoi 32 (cstr (header h sContentLength)) = (body.length : Int))
+    (hte : (cstr (header h sTransferEncoding) == sChunked) = false) :
+    readBody s h = .ok ({ s with inp := rest }, body) :=
+  readBody_content_length s h body rest he hc hi hpos hcl hval hte
+
+/-- **read ∘ serialize = id** for every well-formed request without body or with a Content-Length body, followed by
+    arbitrary further bytes `rest` (a pipelined request, or nothing): the application sees exactly the method, target,
+    protocol, header fields and body that were sent, and `rest` is left on the connection.  The path/query/fragment
+    are those of `parseTarget` (whose path is `..`-free by `no_dotdot_target`). -/
+theorem read_faithful (q : WfReq) (rest : Bytes) (hw : WellFormed q) :
+    ∃ t, parseTarget q.target = .ok t ∧
+      AslModel.HttpParse.read { inp := serialize q ++ rest } =
+        .ok ({ method := q.method, res := q.target, proto := q.proto, path := t.path, query := t.query,
+               fragment := t.fragment, parts := t.parts, headers := hdrDic q.headers, body := q.body },
+             { inp := rest }) := read_faithful_aux q rest hw
+
+/-- the same for chunked framing — stated, not proved (validated by the correspondence check and the python
+    reference on generated chunked requests): for every split of the body into non-empty chunks -/
+def read_faithful_chunked_full : Prop :=
+  ∀ (m t p : Bytes) (hs : List (Bytes × Bytes)) (chunks : List Bytes) (rest : Bytes),
+    WellFormed ⟨m, t, p, hs, []⟩ → (cstr (header (hdrDic hs) sTransferEncoding) == sChunked) = true →
+    hasHeader (hdrDic hs) sContentLength = false → (∀ c ∈ chunks, c ≠ [] ∧ c.length < 2 ^ 31) →
+    ∃ r, AslModel.HttpParse.read
+        { inp := m ++ 32 :: (t ++ 32 :: (p ++ 13 :: 10 :: (hdrBlock hs ++ 13 :: 10 ::
+                  (chunks.flatMap (fun c => lowerHex c.length ++ 13 :: 10 :: (c ++ [13, 10])) ++ [48, 13, 10, 13, 10] ++ rest)))) }
+        = .ok r ∧ r.1.body = chunks.flatten ∧ r.2.inp = rest ∧ r.2.err = 0
+
+/-- query strings never fault: `Url::parseQuery` is total on every byte string -/
+theorem query_total (qs : Bytes) : ∃ d, parseQuery qs = .ok d := parseQuery_ok qs
+
 /-! ## non-vacuity and concrete witnesses (the fixed defects, replayed on the real library from corpus/C09) -/
 
 -- "GET /%00/../x HTTP/1.1\r\n\r\n": the encoded NUL no longer hides the `..` (d45e346)
@@ -134,5 +193,17 @@ example : (readBody { inp := [97, 98, 99] } [(sContentLength, [49, 48, 48])]).to
 example : Live { inp := [71] } := ⟨rfl, rfl, by simp⟩
 -- `rmDD` really removes: "..../x" ↦ "/x", "..." ↦ "."
 example : rmDD [46, 46, 46, 46, 47, 120] = [47, 120] ∧ rmDD [46, 46, 46] = [46] := by decide
+
+-- a concrete well-formed request: "POST /a HTTP/1.1\r\nContent-Length: 2\r\n\r\nhi" (hypotheses of `read_faithful`)
+example : WellFormed ⟨[80, 79, 83, 84], [47, 97], [72, 84, 84, 80, 47, 49, 46, 49], [(sContentLength, [50])], [104, 105]⟩ where
+  method_ne := by decide
+  method_ok := by decide
+  target_ok := by decide
+  proto_ok := by unfold ValueOk; decide
+  line_len := by decide
+  headers_ok := by unfold HeadersOk NameOk ValueOk; decide
+  no_expect := by decide
+  not_chunked := by decide
+  framing := Or.inr (by decide)
 
 end C09
